@@ -29,4 +29,28 @@ b,e='<!-- seed-lessons-begin -->','<!-- seed-lessons-end -->'
 if b in s:
     s=s[:s.index(b)+len(b)]+'\n'+'\n'.join(lessons)+'\n'+s[s.index(e):]
     open(p,'w').write(s)
-print(n,'seeds,',first,'caught initially')
+metas=[json.load(open(f'/verif/seeded/{d}/meta.json')) for d in sorted(os.listdir('/verif/seeded'))]
+caught=sum(1 for m in metas if m.get('check_run',{}).get('exit')==1)
+neutral=sum(1 for m in metas if m.get('neutralised') and m.get('check_run',{}).get('exit')!=1)
+missed=[m['id'] for m in metas if m.get('check_run',{}).get('exit')!=1 and not m.get('neutralised')]
+waves=max(m.get('wave',1) for m in metas)
+intro=f'''{n} changes were written by independent sub-agents in {waves} waves (nine agents per wave, one per claimed
+property, two changes each) that saw only the property text, a scratch worktree of /repo and, from wave 2
+on, a one-line list of the changes already used (from wave 4 on also a list of areas not used yet), and
+were asked for changes that need a compound trigger. Every one compiles, passes the repository's unedited
+suite and comes with a demonstration test that fails with it and passes without it; I re-verified all of
+that in a fresh worktree (`tools/verify_seed.sh`) and ran the quick check of the property with the change
+applied (`tools/try_seed.sh` on /repo itself at first, later `tools/seed_regress_par.sh` on pristine
+copies; /repo is never left modified). {first} were caught by the checks as they stood when the change
+arrived, {n-first} were missed at first; each miss led to a strengthening of a scenario, generator or
+oracle (never of a threshold), listed below. The table shows the LAST regression run of all stored
+changes against the current machinery and the current /repo: {caught} are caught (exit 1 with a
+reproduced, minimised violation){', '+str(neutral)+' no longer breaks its property because a later fix: commit repaired the second site it relied on' if neutral else ''}{', and '+str(len(missed))+' are missed: '+', '.join(missed)+' (see the notes after the table)' if missed else ''}. Changes whose patch no longer applied after
+a `fix:` commit touched the same lines were re-based (three-way merge, resolved by hand where needed;
+`patch.orig.diff` keeps the original). `-A/-B` are wave 1, `-C/-D` wave 2, ... `-K/-L` wave 6.'''
+s=open('/verif/DESIGN.md').read()
+b,e='<!-- seed-intro-begin -->','<!-- seed-intro-end -->'
+if b in s:
+    s=s[:s.index(b)+len(b)]+'\n'+intro+'\n'+s[s.index(e):]
+    open('/verif/DESIGN.md','w').write(s)
+print(n,'seeds,',first,'caught initially,',caught,'caught now, missed:',missed)
